@@ -37,6 +37,8 @@ def shards(tier, seed):
     for c in lib.pick_curves(tier, seed, extra=3):
         out.append(("prod_%s" % c.name, dict(kind="prod", cname=c.name, rounds=2 if q else 12)))
         out.append(("enc_%s" % c.name, dict(kind="enc", cname=c.name, rounds=1 if q else 6)))
+    if not q:
+        out.append(("repo_test_suite_under_contract", dict(kind="suite")))
     return out
 
 
@@ -108,6 +110,9 @@ def _r_is_infinity(dom, Q, digest, at, rs):
 
 def run(ctx, name, kind, **kw):
     rng = ctx.rng
+    if kind == "suite":
+        from vf.props import c01
+        return c01.run_suite(ctx, which="verify")
     if kind == "toy":
         from vf import toy
         t = toy.toy(*kw["key"])
@@ -283,3 +288,80 @@ def run(ctx, name, kind, **kw):
             for _ in range(20 * kw["rounds"]):
                 JJ("enc.mutated", gen.mutate_bytes(der, rng, rng.randrange(1, 3)), "der", "mut")
                 JJ("enc.mutated", gen.mutate_bytes(raw, rng, rng.randrange(1, 3)), "string", "mut")
+
+
+# --------------------------------------------------------------------------- installable contract (used by vf/pytest_plugin.py)
+
+
+def install_contract(ctx):
+    """Wrap VerifyingKey.verify_digest: every call made by anybody is judged against
+    the reference (Q is read from the key's own serialisation)."""
+    from ecdsa import keys as K
+    VK = K.VerifyingKey
+    if getattr(VK.verify_digest, "_vf_wrapped", False):
+        return
+    orig = VK.verify_digest
+
+    def verify_digest(self, signature, digest, sigdecode=K.sigdecode_string, allow_truncate=False):
+        exc = None
+        try:
+            out = orig(self, signature, digest, sigdecode, allow_truncate)
+        except BaseException as e:  # noqa
+            exc = e
+            out = None
+        try:
+            _judge_call(ctx, self, signature, digest, sigdecode, allow_truncate, out, exc)
+        except Exception as e:      # the contract must never disturb the test
+            ctx.count("contract.verify_digest.oracle_error.%s" % type(e).__name__)
+        if exc is not None:
+            raise exc
+        return out
+    verify_digest._vf_wrapped = True
+    VK.verify_digest = verify_digest
+
+
+def _judge_call(ctx, vk, sig, digest, sigdecode, at, out, exc):
+    fmt = sigs.DECODER_FMT.get(sigdecode)
+    if fmt is None or vk.curve is None:
+        ctx.count("contract.verify_digest.unknown_decoder")
+        return
+    dom = lib.dom_of(vk.curve)
+    ctx.count("contract.verify_digest")
+    try:
+        digest = bytes(digest)
+        if fmt == "strings":
+            sig = tuple(bytes(x) for x in sig)
+        else:
+            sig = bytes(sig)
+    except Exception:
+        ctx.count("contract.verify_digest.odd_argument_types")
+        return
+    pt = vk.pubkey.point
+    Q = (int(pt.x()), int(pt.y()))
+    if not dom.curve.on_curve(Q):
+        ctx.count("contract.verify_digest.key_not_on_curve")   # tests build such keys with validate_point=False
+        return
+    if (not at) and len(digest) > dom.nbytes():
+        want = "BadDigestError"
+    else:
+        rs = sigs.ref_decode(fmt, sig, dom.n)
+        if rs is None:
+            want = "reject"
+        else:
+            e = ecdsa_ref.digest_to_e(dom, digest, at)
+            if e is None:
+                return
+            want = "accept" if ecdsa_ref.verify(dom, Q, e, rs[0], rs[1]) else "reject"
+    if exc is None:
+        got = "accept" if out is True else "returned %r" % (out,)
+    elif isinstance(exc, ecdsa.BadSignatureError):
+        got = "reject"
+    elif isinstance(exc, ecdsa.keys.BadDigestError):
+        got = "BadDigestError"
+    else:
+        got = "raised %s" % type(exc).__name__
+    ctx.case("suite.verify_digest", key="%s|%s|%s" % (vk.curve.name, fmt, want))
+    if got != want:
+        mech = "forgery_accepted" if (want == "reject" and got == "accept") else ("valid_signature_rejected" if (want == "accept" and got == "reject") else "verify_wrong_outcome:" + got.split(":")[0])
+        ctx.violation(mech, "test-suite call on %s [%s]: expected %s, library %s" % (vk.curve.name, fmt, want, got),
+                      dict(curve=vk.curve.name, Q=Q, sig=sig if not isinstance(sig, tuple) else list(sig), digest=digest, allow_truncate=at))
